@@ -2,9 +2,9 @@
 
 Sections
   quantile : weighted_sample_quantile on every x in {0..}^n (ties, unsorted, single element), every weight
-             vector in {0..wmax}^n \\ {0} (and weights=None), every alpha of a finite rational alphabet, every
-             weight rescaling; oracle in exact rationals (vmc/ref/c13_oracles.py): result is an element,
-             W(<=q) >= alpha, W(<q) <= alpha, monotone in alpha, invariant to rescaling.
+             vector in {0..wmax}^n minus the zero vector (and weights=None), every alpha of a finite rational
+             alphabet, every weight rescaling; oracle in exact rationals (vmc/ref/c13_oracles.py): result is an
+             element, W(<=q) >= alpha, W(<q) <= alpha, monotone in alpha, invariant to rescaling.
   sample   : the same definition through elfi.methods.results.Sample.sample_quantiles /
              sample_means_and_95CIs (the reported credible intervals).
   wvar     : weighted_var (1-D and 2-D x) against the exact-rational reliability-weights formula and against
@@ -824,7 +824,7 @@ def run(ctx):
                 for cov in covs:
                     for w in wsel:
                         for size in (1, 2, 3, 4):
-                            for s in seeds:
+                            for s in (seeds[:1] if (q and size == 4) else seeds):
                                 cases.append({'kind': 'rvs-tree', 'd': d, 'k': k, 'form': form, 'cov': cov, 'w': w,
                                               'size': size, 'rounds': R, 'seed': s})
                         if not q and cov == covs[-1] and form == forms[0]:
